@@ -75,7 +75,7 @@ def gen_case(seed, idx, tier="quick"):
     if idx % 250 == 0:
         # the hand-written collision table (different contents made of the same numbers), in a node with a seed-chosen hash seed
         return {"collision_probes": True, "hs_a": rng.choice(cfg["node_seeds"])}
-    quals = dict(keys=QUAL_KEYS, vals=QUAL_VALS, max_keys=3, p_none=0.25, typed_p=0.07)
+    quals = dict(keys=QUAL_KEYS, vals=QUAL_VALS, max_keys=3, p_none=0.25, typed_p=0.12)
     spec = specs.gen_collection(rng, L=rng.choice([40, 90, 200, 300]), n_genes=rng.randint(0, 3), n_fcs=rng.choice([0, 1, 1, 2]),
                                 quals=quals, gene_kw=dict(max_tx=3, same_strand=rng.random() < 0.7), with_n=rng.random() < 0.1)
     if not spec["genes"] and not spec["feature_collections"]:
@@ -322,11 +322,36 @@ def seq_report(obj):
     return None
 
 
+def _qual_walk_dict(d):
+    """Exported qualifiers of a collection dictionary, level by level in a fixed traversal order."""
+    out = [d.get("qualifiers")]
+    for g in d.get("genes") or []:
+        out.append(g.get("qualifiers"))
+        out += [t.get("qualifiers") for t in g["transcripts"]]
+    for c in d.get("feature_collections") or []:
+        out.append(c.get("qualifiers"))
+        out += [f.get("qualifiers") for f in c["feature_intervals"]]
+    for c in d.get("variant_collections") or []:
+        out.append(c.get("qualifiers"))
+        out += [v.get("qualifiers") for v in c["variant_intervals"]]
+    return out
+
+
+def expected_qualifier_export(spec):
+    """What the documentation says to_dict() exports for the qualifiers a caller passed in: every value as text, each
+    key's values as a sorted list without duplicates; nothing (None) for no qualifiers."""
+    def conv(q):
+        return {k: sorted({str(v) for v in vs}) for k, vs in q.items()} if q else None
+
+    return [conv(q) for q in _qual_walk_dict(spec)]
+
+
 def report(obj):
     from bcsim.canon import cjson
 
     rep = {"guids": guid_tree(obj), "content": _try(lambda: cjson(obj.to_dict())), "seqs": seq_report(obj)}
     if type(obj).__name__ == "AnnotationCollection":
+        rep["quals"] = _try(lambda: _qual_walk_dict(obj.to_dict()))
         rep["parent"] = _try(lambda: cjson(obj.to_dict(export_parent=True)["parent_or_seq_chunk_parent"]))
         rep["chunk_location"] = _try(lambda: str(obj.chunk_relative_location))
     return rep
@@ -680,6 +705,15 @@ def judge_case(case, prod, cons, sens_guids):
             findings.append(dict(base, what="eq", detail=str(rec["eq"])))
         elif rec["hash_eq"] is not True:
             findings.append(dict(base, what="hash", detail=str(rec["hash_eq"])))
+    # 1b. the dictionary exports exactly the qualifiers the producer was given (as text, sorted), whatever else this
+    # process converted before
+    if not case.get("derive") and isinstance(prod["report"].get("quals"), list):
+        want = expected_qualifier_export(case["spec_a"])
+        have = prod["report"]["quals"]
+        if have != want:
+            i = next((j for j in range(min(len(have), len(want))) if have[j] != want[j]), -1)
+            findings.append({"inv": "export_equals_input", "form": "dict", "cls": "AnnotationCollection", "what": "qualifiers",
+                             "detail": f"level {i}: exported {str(have[i] if i >= 0 else len(have))[:120]} given {str(want[i] if i >= 0 else len(want))[:120]}"})
     # 2b. content -> identifier
     for rec in cons.get("recomputed", []):
         src = prod["report"] if not rec["path"] else prod_children[json.dumps(rec["path"])]["report"]
